@@ -131,7 +131,8 @@ func (p Protocol) String() string {
 
 // Supported returns true if the protocol is a supported Minecraft Java edition version.
 func (p Protocol) Supported() bool {
-	return !p.Unknown()
+	v, ok := ProtocolToVersion[proto.Protocol(p)]
+	return ok && v != Unknown && v != Legacy
 }
 
 func (p Protocol) Legacy() bool {
